@@ -5,16 +5,15 @@ base repository template
 __all__ = ("CategoryLazyFrozenSet", "PackageMapping", "VersionMapping", "tree")
 
 import typing
+from itertools import chain
 from pathlib import Path
 
 from snakeoil.klass import jit_attr
 from snakeoil.mappings import DictMixin
-from snakeoil.sequences import iflatten_instance
 
 from ..ebuild.atom import atom
 from ..operations import repo
 from ..restrictions import boolean, packages, restriction, values
-from ..restrictions.util import collect_package_restrictions
 
 
 class CategoryLazyFrozenSet:
@@ -314,17 +313,39 @@ class tree:
             elif yield_none:
                 yield None
 
+    @staticmethod
+    def _clause_restrictions(clause, attr):
+        """Value restrictions the members of a conjunction place on a package attribute.
+
+        Only plain package restrictions are considered: nested boolean nodes and
+        :obj:`restriction.Negate` wrappers are opaque (their members do not have
+        to hold for a match).  A negated package restriction is represented by
+        the negation of its value restriction.
+        """
+        return [
+            restriction.Negate(r.restriction) if r.negate else r.restriction
+            for r in clause
+            if isinstance(r, packages.PackageRestriction) and r.attrs == (attr,)
+        ]
+
     def _identify_candidates(self, restrict, sorter):
         # full expansion
         if not isinstance(restrict, boolean.base) or isinstance(restrict, atom):
-            return self._fast_identify_candidates(restrict, sorter)
+            return self._fast_identify_candidates(
+                self._clause_restrictions((restrict,), "category"),
+                self._clause_restrictions((restrict,), "package"),
+                sorter,
+            )
         dsolutions = [
             (
-                [c.restriction for c in collect_package_restrictions(x, ("category",))],
-                [p.restriction for p in collect_package_restrictions(x, ("package",))],
+                self._clause_restrictions(x, "category"),
+                self._clause_restrictions(x, "package"),
             )
             for x in restrict.iter_dnf_solutions(True)
         ]
+        if not dsolutions:
+            # unsatisfiable
+            return ()
 
         # see if any solution state isn't dependent on cat/pkg in anyway.
         # if so, search whole search space.
@@ -351,11 +372,7 @@ class tree:
                 return self.versions
             # ok. so... one doesn't specify a category, but they all
             # specify packages (or don't)
-            pr = values.OrRestriction(
-                *tuple(
-                    iflatten_instance((x[1] for x in dsolutions if x[1]), values.base)
-                )
-            )
+            pr = values.OrRestriction(*chain.from_iterable(x[1] for x in dsolutions))
             return (
                 (c, p)
                 for c in sorter(self.categories)
@@ -365,40 +382,36 @@ class tree:
 
         elif any(True for x in dsolutions[1:] if bool(x[1]) != pkg_specified):
             # one (or more) don't specify pkgs, but they all specify cats.
-            cr = values.OrRestriction(
-                *tuple(iflatten_instance((x[0] for x in dsolutions), values.base))
-            )
+            cr = values.OrRestriction(*chain.from_iterable(x[0] for x in dsolutions))
             cats_iter = (c for c in sorter(self.categories) if cr.match(c))
             return ((c, p) for c in cats_iter for p in sorter(pgetter(c, [])))
 
-        return self._fast_identify_candidates(restrict, sorter)
+        # every solution constrains the same attributes; a candidate has to
+        # satisfy a category (package) restriction of at least one of them.
+        return self._fast_identify_candidates(
+            chain.from_iterable(x[0] for x in dsolutions),
+            chain.from_iterable(x[1] for x in dsolutions),
+            sorter,
+        )
 
-    def _fast_identify_candidates(self, restrict, sorter):
-        pkg_restrict = set()
-        cat_restrict = set()
+    def _fast_identify_candidates(self, cat_restrict, pkg_restrict, sorter):
+        """Candidates matching any of the category and any of the package value restrictions."""
+        pkg_restrict = set(pkg_restrict)
+        cat_restrict = set(cat_restrict)
         cat_exact = set()
         pkg_exact = set()
 
-        for x in collect_package_restrictions(
-            restrict,
-            (
-                "category",
-                "package",
-            ),
-        ):
-            if x.attr == "category":
-                cat_restrict.add(x.restriction)
-            elif x.attr == "package":
-                pkg_restrict.add(x.restriction)
-
         for e, s in ((pkg_exact, pkg_restrict), (cat_exact, cat_restrict)):
-            l = [x for x in s if isinstance(x, values.StrExactMatch) and not x.negate]
+            l = [
+                x
+                for x in s
+                if isinstance(x, values.StrExactMatch)
+                and x.case_sensitive
+                and not x.negate
+            ]
             s.difference_update(l)
             e.update(x.exact for x in l)
         del l
-
-        if restrict.negate:
-            cat_exact = pkg_exact = ()
 
         if cat_exact:
             if not cat_restrict and len(cat_exact) == 1:
@@ -414,7 +427,7 @@ class tree:
                 cat_restrict.add(values.ContainmentMatch(frozenset(cat_exact)))
                 cats_iter = sorter(self._cat_filter(cat_restrict))
         elif cat_restrict:
-            cats_iter = self._cat_filter(cat_restrict, negate=restrict.negate)
+            cats_iter = self._cat_filter(cat_restrict)
         else:
             cats_iter = sorter(self.categories)
 
@@ -429,7 +442,7 @@ class tree:
                 pkg_restrict.add(values.ContainmentMatch(frozenset(pkg_exact)))
 
         if pkg_restrict:
-            return self._package_filter(cats_iter, pkg_restrict, negate=restrict.negate)
+            return self._package_filter(cats_iter, pkg_restrict)
         elif not cat_restrict:
             if sorter is iter and not cat_exact:
                 return self.versions
